@@ -302,7 +302,28 @@ pub fn install_hook() {
             }
         });
     }));
+    warm_up_panics();
 }
+/// The first panic of a process makes the panic runtime initialise itself lazily (it allocates
+/// before the thread counts as panicking). Raise and catch one panic of every flavour up front,
+/// outside every library scope, so that those one-time allocations are never attributed to a
+/// library operation (they were once, in 1 of 27 million runs: DESIGN 10.6 no. 10).
+pub fn warm_up_panics() {
+    let _h = enter_harness();
+    let _ = std::panic::catch_unwind(|| panic!("LIB: warm-up"));
+    let _ = std::panic::catch_unwind(|| {
+        let n = std::hint::black_box(3);
+        panic!("LIB: warm-up {}", n)
+    });
+    let _ = std::panic::catch_unwind(|| {
+        let (a, b) = (std::hint::black_box(1), std::hint::black_box(2));
+        assert_eq!(a, b, "LIB: warm-up");
+    });
+    let _ = std::panic::catch_unwind(|| std::hint::black_box(None::<u8>).expect("LIB: warm-up"));
+    let _ = std::panic::catch_unwind(|| std::panic::panic_any(Injected("warm-up")));
+    let _ = take_harness_panic();
+}
+
 pub fn take_harness_panic() -> Option<String> {
     HARNESS_PANIC.with(|h| h.borrow_mut().take())
 }
